@@ -1036,17 +1036,63 @@ def rule_combinators(chk: Check):
         chk.require(not bad, R, "Parser.seq_alts", f.where,
                     "`seq_alts` must try the alternatives in the order given, return the first truthy result and restore the position after "
                     f"each failure{': ' + str(bad[0]) if bad else ''}")
+    # separated repetition `s.e+`: decided by evaluating `gathered` — together with whatever combinators it is built from, all
+    # taken from source — on every token stream of length <= 5 over {element, separator, other}.  PEG: e (s e)* — the elements in
+    # order, the position after the last element (a trailing separator is not consumed), None with the position restored when
+    # there is no first element.
+    import itertools as _it2
+    from .c17 import Crash as _Crash2, EvalError as _EvalError2, SourceSelf as _SourceSelf
     f = fn("Parser.gathered")
     chk.count(R)
-    src = [norm_stmt(s0) for s0 in f.node.body if not (isinstance(s0, ast.Expr) and isinstance(s0.value, ast.Constant))]
-    chk.require("mark = self._mark()" in src and "self._reset(mark)" in src and src[-1] == "return None" and
-                any("return [elem, *seq]" in s for s in src), R, "Parser.gathered", f.where,
-                "`gathered` must return the first element followed by the separated rest, and restore the position on failure")
-    f = fn("Parser.sep_repeated")
-    chk.count(R)
-    chk.require(paths(f) == {(("cond", "sep_func(*sep_args) and (v0 := self.seq_alts(func))", True), ("return", "v0")),
-                             (("cond", "sep_func(*sep_args) and (v0 := self.seq_alts(func))", False), ("return", "None"))}, R,
-                "Parser.sep_repeated", f.where, "a separated repetition step is separator then element, returning the element")
+    parser_cls = next((c for c in ast.walk(ix.modules[repo.SUBHEADER]) if isinstance(c, ast.ClassDef) and c.name == "Parser"), None)
+    methods = {m.name: m for m in (parser_cls.body if parser_cls else []) if isinstance(m, ast.FunctionDef)}
+    bad, und = [], ""
+    for n in range(0, 6):
+        if bad or und:
+            break
+        for stream in _it2.product("esx", repeat=n):
+            for form in ("bare", "tuple"):
+                st = {"pos": 0}
+
+                def elem(tag=None):
+                    if st["pos"] < len(stream) and stream[st["pos"]] == "e":
+                        st["pos"] += 1
+                        return ("E", st["pos"] - 1)
+                    return None
+
+                def sep(lit=None):
+                    if st["pos"] < len(stream) and stream[st["pos"]] == "s":
+                        st["pos"] += 1
+                        return ("S", st["pos"] - 1)
+                    return None
+                prims = {"_mark": lambda: st["pos"], "_reset": lambda m: st.__setitem__("pos", m)}
+                me = _SourceSelf(methods, prims)
+                try:
+                    got = me.gathered(elem if form == "bare" else (elem, "tag"), sep, ",")
+                except _Crash2 as e:
+                    bad.append((stream, form, f"raises {e}"))
+                    break
+                except _EvalError2 as e:
+                    und = str(e)
+                    break
+                # expectation
+                want, pos = None, 0
+                if n and stream[0] == "e":
+                    want, pos = [("E", 0)], 1
+                    while pos + 1 < n and stream[pos] == "s" and stream[pos + 1] == "e":
+                        want.append(("E", pos + 1))
+                        pos += 2
+                if (list(got) if got is not None else None) != want or st["pos"] != pos:
+                    bad.append(("".join(stream), form, got, st["pos"], want, pos))
+                    break
+            if bad or und:
+                break
+    if und:
+        chk.undecided(R, "Parser.gathered", f.where, f"not evaluable: {und}")
+    else:
+        chk.require(not bad, R, "Parser.gathered", f.where,
+                    "`gathered` must return the first element followed by the separated rest, leave a trailing separator unconsumed and "
+                    f"restore the position on failure{': (stream, form, got, position, expected, expected position) ' + str(bad[0]) if bad else ''}")
     rule_is_blank(chk, R)
     # position bookkeeping of the token cache
     f = fn("Tokenizer.getnext")
@@ -1082,28 +1128,42 @@ def rule_combinators(chk: Check):
                 norm_stmt(loops[0].test) in ("self._index == len(self._tokens)", "len(self._tokens) == self._index",
                                              "self._index >= len(self._tokens)") and body_ok, R, "Tokenizer.peek", f.where,
                 "`peek` must fetch (and append) tokens only while the index is at the end of the cache and return the token at the index")
-    # left recursion by seed growing
+    # left recursion by seed growing: the wrapper, evaluated from source around the rule  r: r '+' 'n' | 'n'  on every token stream
+    # of length <= 6 over {n, +, x}, must return the left-nested parse of the longest prefix n(+n)*, leave the position right after
+    # it (at the start on failure), cache exactly that, answer a second call from the cache, and do the same when tracing
+    import itertools as _it3
+    from .c17 import Crash as _Crash3, EvalError as _EvalError3, eval_left_rec, left_rec_expected
     f = fn("memoize_left_rec.memoize_left_rec_wrapper")
-    node = f.node
     chk.count(R)
-    prime = [n for n in own_nodes(node) if isinstance(n, ast.Assign) and norm_stmt(n) == "self._cache[key] = (None, mark)"]
-    grow = [n for n in own_nodes(node) if isinstance(n, ast.While) and isinstance(n.test, ast.Constant) and n.test.value is True]
-    ok = len(prime) == 1 and len(grow) == 1
-    if ok:
-        body = [norm_stmt(s) for s in grow[0].body if not (isinstance(s, ast.If) and "verbose" in norm_stmt(s.test))]
-        # reset to the start, run, stop on failure or when no longer than before, else remember the longer parse
-        want_order = ["self._reset(mark)", "self.in_recursive_rule += 1", "endmark = self._mark()", "depth += 1"]
-        pos = [next((i for i, s in enumerate(body) if s.startswith(w)), -1) for w in want_order]
-        stops = [s for s in body if s.startswith("if not result:") or s.startswith("if endmark <= lastmark:")]
-        store = [s for s in body if s.startswith("self._cache[key] = lastresult, lastmark = (result, endmark)")]
-        ok = all(p >= 0 for p in pos[:3]) and pos[0] < pos[2] and len(stops) == 2 and all("break" in s for s in stops) and len(store) == 1 \
-            and body.index(store[0]) > max(body.index(s) for s in stops) and prime[0].lineno < grow[0].lineno
-        after = [norm_stmt(s) for s in ast.walk(node) if isinstance(s, ast.stmt) and getattr(s, "lineno", 0) > grow[0].end_lineno]
-        ok = ok and "self._reset(lastmark)" in after and "tree = lastresult" in after
-    chk.require(ok, R, "memoize_left_rec:seed-growing", f.where,
-                "left recursion must be grown from a failure seed: prime the cache with (None, mark); repeatedly restart at mark and re-run the "
-                "rule; stop when it fails or does not get longer (`endmark <= lastmark`); otherwise store the longer parse as the new seed; "
-                "finally return to the longest parse. This is what makes `a - b - c` parse as `(a - b) - c`")
+    bad, und = [], ""
+    for n in range(0, 7):
+        if bad or und:
+            break
+        for stream in _it3.product("n+x", repeat=n):
+            want = left_rec_expected(stream)
+            for verbose in (False, True):
+                try:
+                    tree, endpos, entry, runs2, level, depth = eval_left_rec(f.node, verbose, stream)
+                except _Crash3 as e:
+                    bad.append(("".join(stream), verbose, f"raises {e}"))
+                    break
+                except _EvalError3 as e:
+                    und = str(e)
+                    break
+                ok_ = (tree, endpos) == want and entry is not None and tuple(entry) == (want[0], want[1]) and runs2 == (0, True, True) \
+                    and level == 0 and depth == 0
+                if not ok_:
+                    bad.append(("".join(stream), verbose, tree, endpos, entry, runs2))
+                    break
+            if bad or und:
+                break
+    if und:
+        chk.undecided(R, "memoize_left_rec:seed-growing", f.where, f"not evaluable: {und}")
+    else:
+        chk.require(not bad, R, "memoize_left_rec:seed-growing", f.where,
+                    "left recursion must be grown from a failure seed until the parse stops getting longer, return the longest (left-nested) "
+                    "parse with the position right after it, cache it, and answer the next call at that position from the cache — this is "
+                    f"what makes `a - b - c` parse as `(a - b) - c`{': (stream, verbose, tree, end, cached, second call) ' + str(bad[0]) if bad else ''}")
     chk.floor(R, 14)
 
 
